@@ -13,10 +13,10 @@
    defect  "none" or ONE malformation of the encoding, placed at the node `path` of the value tree
    mode    strict      Unmarshal(b, &T)
            laxTop      UnmarshalWithParams(b, &T, "lax")
-           laxAncestor UnmarshalWithParams(b, &W, "lax") where W embeds T in a container `wrap`
-                       (struct field / SEQUENCE OF element / SET OF element / EXPLICIT field /
-                       OPTIONAL field), the defect sits inside T: lax requested on an ancestor
-                       must reach it through every kind of container
+           laxAncestor UnmarshalWithParams(b, &W, "lax") where W embeds T in the containers `wrap`
+                       (outermost first; struct field / SEQUENCE OF element / SET OF element /
+                       EXPLICIT field / OPTIONAL field), the defect sits inside T: lax requested
+                       on an ancestor must reach it through every kind of container
            fieldTag    Unmarshal(b, &T') where T' is T with `lax` added to the tag of the struct
                        field at path laxAt.  The property speaks about lax MODE, not about this
                        way of switching it on: the clause FieldTagLax is NAMED BUT NOT ASSERTED
@@ -37,7 +37,7 @@ CONSTANTS
   DeliberateDiff,  \* documented differences fork vs. encoding/asn1 of the installed toolchain
   Benign,          \* not DER, accepted by every decoder in every mode (named clauses, see below)
   AncestorDefects, \* defects combined with mode laxAncestor (all of them in the thorough instance)
-  Wraps            \* containers of mode laxAncestor
+  Wraps            \* container stacks of mode laxAncestor (sequences of container names, outermost first)
 
 VARIABLE c         \* the case
 
@@ -131,6 +131,11 @@ WrapRoots(w, v) ==
     [] w = "explicit" -> {<<1, 1>>}
     [] w = "optional" -> {<<2>>}
 
+RECURSIVE WrapAll(_, _), WrapAllOK(_, _), RootsAll(_, _)
+WrapAll(ws, t)   == IF ws = <<>> THEN t ELSE Wrap(Head(ws), WrapAll(Tail(ws), t))
+WrapAllOK(ws, t) == ws = <<>> \/ (WrapAllOK(Tail(ws), t) /\ WrapOK(Head(ws), WrapAll(Tail(ws), t)))
+RootsAll(ws, v)  == IF ws = <<>> THEN {<<>>} ELSE {r \o q : r \in WrapRoots(Head(ws), v), q \in RootsAll(Tail(ws), v)}
+
 (* ---- value variants ------------------------------------------------------------------------- *)
 IsOpt(n)      == "optional" \in n.p
 Present(n, v) == ~(IsOpt(n) /\ v = 1)          \* variant 1 leaves every optional field out
@@ -213,18 +218,18 @@ Applicable(d, t, v, p) ==
 
 (* ---- cases ---------------------------------------------------------------------------------- *)
 Case(s, v, d, p, m, w, f) == [shape |-> s, v |-> v, defect |-> d, path |-> p, mode |-> m, wrap |-> w, laxAt |-> f]
-Tree(x) == Wrap(x.wrap, Shapes[x.shape])
+Tree(x) == WrapAll(x.wrap, Shapes[x.shape])
 
 PD(t, v) == {<<<<>>, "none">>} \cup {pd \in PathsOf(t, v) \X Defects : Applicable(pd[2], t, v, pd[1])}
 \* the defects of mode laxAncestor sit inside T
-PDInside(w, t, v) == {pd \in PD(Wrap(w, t), v) :
+PDInside(w, t, v) == {pd \in PD(WrapAll(w, t), v) :
                         /\ pd[2] \in AncestorDefects \cup {"none"}
-                        /\ (pd[2] = "none" \/ \E r \in WrapRoots(w, v) : IsPrefix(r, pd[1]))}
+                        /\ (pd[2] = "none" \/ \E r \in RootsAll(w, v) : IsPrefix(r, pd[1]))}
 
 CasesV(s, t, v) ==
-  {Case(s, v, pd[2], pd[1], m, "none", <<>>) : pd \in PD(t, v), m \in {"strict", "laxTop"}}
-  \cup UNION {{Case(s, v, pd[2], pd[1], "laxAncestor", w, <<>>) : pd \in PDInside(w, t, v)} : w \in {x \in Wraps : WrapOK(x, t)}}
-  \cup {Case(s, v, pd[2], pd[1], "fieldTag", "none", f) :
+  {Case(s, v, pd[2], pd[1], m, <<>>, <<>>) : pd \in PD(t, v), m \in {"strict", "laxTop"}}
+  \cup UNION {{Case(s, v, pd[2], pd[1], "laxAncestor", w, <<>>) : pd \in PDInside(w, t, v)} : w \in {x \in Wraps : WrapAllOK(x, t)}}
+  \cup {Case(s, v, pd[2], pd[1], "fieldTag", <<>>, f) :
           pd \in {x \in PD(t, v) : x[2] \in LaxTolerated}, f \in {g \in FieldPaths(t, v) : TRUE}}
 
 Cases == UNION {UNION {CasesV(s, Shapes[s], v) : v \in Variants} : s \in ShapeNames}
@@ -295,7 +300,7 @@ LaxOnlyDocumented == (E.mode = "accept" /\ E.strict = "reject") => (c.defect \in
 LaxPropagates == (c.defect \in LaxTolerated /\ InEffect(c)) => E.mode = "accept"
 \* ... through every container: the defect of a laxAncestor case lies strictly below the container
 AncestorDepth == (c.mode = "laxAncestor" /\ c.defect # "none") =>
-                    (Len(c.path) >= 1 /\ \E r \in WrapRoots(c.wrap, c.v) : IsPrefix(r, c.path))
+                    (Len(c.path) >= Len(c.wrap) /\ \E r \in RootsAll(c.wrap, c.v) : IsPrefix(r, c.path))
 \* without lax a tolerated malformation is rejected (next to a lax-tagged field, too)
 LaxIsLocal == (c.defect \in LaxTolerated /\ ~InEffect(c) /\ ~FieldTagLax(c)) => E.mode = "reject"
 \* strict = upstream, except for the documented list, and every entry of the list is a real difference
